@@ -5,6 +5,8 @@ import (
 	"math"
 	"strconv"
 	"strings"
+	"unicode"
+	"unicode/utf16"
 
 	dtpb "github.com/google/fhir/go/proto/google/fhir/proto/r4/core/datatypes_go_proto"
 	"github.com/shopspring/decimal"
@@ -53,23 +55,63 @@ type String string
 // ParseString parses the input string and replaces FHIRPath
 // escape sequences with their Go-equivalent escape characters.
 func ParseString(input string) (String, error) {
-	escSequences := []string{
-		"\\'", "'",
-		"\\\"", "\"",
-		"\\`", "`",
-		"\\r", "\r",
-		"\\t", "\t",
-		"\\n", "\n",
-		"\\f", "\f",
-		"\\\\", "\\",
-		"\\", "",
-		// TODO PHP-5581
-	}
 	input = strings.TrimPrefix(input, "'")
 	input = strings.TrimSuffix(input, "'")
-	replacer := strings.NewReplacer(escSequences...)
-	escapedString := replacer.Replace(input)
-	return String(escapedString), nil
+
+	var sb strings.Builder
+	for i := 0; i < len(input); i++ {
+		if input[i] != '\\' || i+1 == len(input) {
+			if input[i] != '\\' {
+				sb.WriteByte(input[i])
+			}
+			continue
+		}
+		i++
+		switch c := input[i]; c {
+		case 'r':
+			sb.WriteByte('\r')
+		case 't':
+			sb.WriteByte('\t')
+		case 'n':
+			sb.WriteByte('\n')
+		case 'f':
+			sb.WriteByte('\f')
+		case 'u':
+			// \uXXXX, possibly followed by the low half of a surrogate pair
+			r, ok := parseUnicodeEscape(input[i+1:])
+			if !ok {
+				sb.WriteByte(c)
+				continue
+			}
+			i += 4
+			if utf16.IsSurrogate(r) && strings.HasPrefix(input[i+1:], "\\u") {
+				if low, ok := parseUnicodeEscape(input[i+3:]); ok && utf16.IsSurrogate(low) {
+					if combined := utf16.DecodeRune(r, low); combined != unicode.ReplacementChar {
+						r = combined
+						i += 6
+					}
+				}
+			}
+			sb.WriteRune(r)
+		default:
+			// \' \" \` \\ \/ stand for the character itself; the backslash
+			// of any other sequence is dropped.
+			sb.WriteByte(c)
+		}
+	}
+	return String(sb.String()), nil
+}
+
+// parseUnicodeEscape parses the four hexadecimal digits of a \uXXXX escape.
+func parseUnicodeEscape(digits string) (rune, bool) {
+	if len(digits) < 4 {
+		return 0, false
+	}
+	value, err := strconv.ParseUint(digits[:4], 16, 32)
+	if err != nil {
+		return 0, false
+	}
+	return rune(value), true
 }
 
 // Equal returns true if the input value is a System String,
